@@ -378,6 +378,18 @@ func initTopicP2P(t *Topic, sreg *ClientComMessage) error {
 				users[u2].Access.Auth,
 				types.ModeCP2P)
 
+			if stopic != nil {
+				// Check if the requester has been subscribed previously and if so, use previous modeGiven.
+				// Otherwise the user may delete subscription and resubscribe to avoid being blocked.
+				oldSub, err := store.Subs.Get(t.name, userID1, true)
+				if err != nil {
+					return err
+				}
+				if oldSub != nil && oldSub.ModeGiven.IsDefined() {
+					userData.modeGiven = oldSub.ModeGiven&types.ModeCP2P | types.ModeApprove
+				}
+			}
+
 			// By default assign the same mode that user1 gave to user2 (could be changed below)
 			userData.modeWant = sub2.ModeGiven
 
